@@ -324,6 +324,34 @@ def shape_stats(c):
     return st
 
 
+def sticky_nodes(t, tree):
+    """Nodes of a C container that are still pinned (_p_state == STICKY) - looked at BEFORE the node's
+    own __getstate__ runs (every entry point brackets itself with PER_USE / PER_UNUSE and would unpin it)."""
+    out = []
+    seen = set()
+    stack = [t]
+    ttype = type(t)
+    while stack:
+        n = stack.pop()
+        if n is None or id(n) in seen:
+            continue
+        seen.add(id(n))
+        if getattr(n, '_p_state', 0) == 2:
+            out.append(type(n).__name__)
+        st = n.__getstate__()
+        if tree and type(n) is ttype:
+            if st is None:
+                continue
+            if len(st) == 1:
+                stack.append(getattr(n, '_firstbucket', None))
+            else:
+                stack.extend(st[0][::2])
+                stack.append(st[1])
+        elif st is not None and len(st) > 1:
+            stack.append(st[1])
+    return out
+
+
 def has_lone_leaf_node(c):
     """True if some NON-root interior node has exactly one child and that child is a leaf.
     Such a node serialises its leaf inline when the leaf has no oid (see DESIGN F12)."""
